@@ -248,7 +248,7 @@ func c18lane(c *Check, rng *rand.Rand, lane, edits int) {
 			// is still running when the second edit arrives
 			st.enable = true
 			apply("add")
-			extra = 6000 // (30000 made a single reload take seconds: the hash map's inserts are not O(1))
+			extra = 1500 // (30000, and under load 6000, made a single reload take seconds: the hash map's inserts and deletes are not O(1))
 			write("rename-over")
 			time.Sleep(time.Duration(3+rng.Intn(15)) * time.Millisecond)
 			apply("remove")
